@@ -118,6 +118,14 @@ def run(ctx):
             if name == "from_json" and ks == "number":
                 acc = sorted({n["name"] for n in H.walk(arm["body"]) if H.kind(n) == "MethodCall" and "serde_json::number::Number" in (n.get("recv_ty") or "")})
                 ctx.inst("C06.R2", "from_json#Number#accessor", acc == ["as_f64"], "serde_json::Number accessors used: %s (only as_f64 is total; any other accessor makes the `unwrap_or` fall-back reachable for valid numbers)" % acc, H.loc(arm["body"]))
+            # a string's content crosses the conversion verbatim: nothing in a string arm (or its guard) rewrites text
+            if ks == "string":
+                REWRITE = ("replace", "replacen", "trim", "trim_end", "trim_start", "trim_matches", "trim_end_matches", "trim_start_matches", "to_lowercase", "to_uppercase",
+                           "to_ascii_lowercase", "to_ascii_uppercase", "escape_default", "escape_debug", "escape_unicode", "truncate", "strip_prefix", "strip_suffix", "retain", "filter", "nfc", "nfd")
+                nodes_ = list(H.walk(arm["body"])) + (list(H.walk(arm["guard"])) if arm.get("guard") else [])
+                rew = sorted({n["name"] for n in nodes_ if H.kind(n) == "MethodCall" and n["name"] in REWRITE})
+                ctx.inst("C06.R2", "%s#%s#verbatim%s" % (name, H.last(src), "#guarded" if arm.get("guard") else ""), False if rew else True,
+                         "text-rewriting calls in the string arm: %s (a string value must come back character for character)" % (rew or "none"), H.loc(arm["body"]))
             # recursion with the same function in container arms
             if ks in ("list", "record"):
                 rec = [H.last(n.get("def") or "") for n in H.walk(arm["body"]) if H.kind(n) in ("Call", "MethodCall") and (n.get("def") or "").startswith("blots_core::values::SerializableValue::")]
